@@ -391,7 +391,7 @@ theorem step_prov (s0 : List Resp) (r : Rd) (op : ROp) (hinv : Inv r) (hs : r.Sm
     · simp at he
   | release e =>
     have := release_frame r
-    exact ⟨by simpa [Rd.step] using hp.frame this.1 this.2, by intro e he; simp [Rd.step, RRes.err] at he⟩
+    exact ⟨by simpa [Rd.step, Rd.releaseE] using hp.frame this.1 this.2, by intro e he; simp [Rd.step, RRes.err] at he⟩
   | readLen =>
     exact ⟨by simpa [Rd.step] using hp, by intro e he; simp [Rd.step, RRes.err] at he⟩
 
